@@ -1,1 +1,14 @@
-fn main(){}
+use vcore::evid::{parse_args, silence_panics};
+
+fn main() {
+    let (prop, tier, replay) = parse_args();
+    if prop != "count" {
+        silence_panics();
+    }
+    // compiling / evaluating deep terms recurses: run on a big stack
+    let h = std::thread::Builder::new()
+        .stack_size(512 * 1024 * 1024)
+        .spawn(move || h_lang::dispatch(&prop, tier, replay))
+        .unwrap();
+    std::process::exit(h.join().unwrap_or(2));
+}
